@@ -8,7 +8,7 @@
 //! Every endpoint logs (op, requested, result, logical start/end sequence numbers, monotonic
 //! microseconds); payload byte p of a direction is pat(dir, p).  A SIGSEGV (control buffer is placed
 //! against a PROT_NONE page) prints {"crash":id} and exits 42; a plan that does not finish in
-//! 30 s prints {"hang":id} and exits 43.
+//! 12 s prints {"hang":id} and exits 43.
 use std::io::{BufRead, Write as _};
 use std::sync::atomic::{AtomicI64, AtomicU64, Ordering};
 use std::sync::{Arc, Barrier};
@@ -421,7 +421,7 @@ fn watchdog() {
             let cur = CUR.load(Ordering::Relaxed);
             if cur != last.0 {
                 last = (cur, Instant::now());
-            } else if cur >= 0 && last.1.elapsed() > Duration::from_secs(30) {
+            } else if cur >= 0 && last.1.elapsed() > Duration::from_secs(12) {
                 println!("{{\"hang\":{cur}}}");
                 unsafe { libc::_exit(43) };
             }
